@@ -118,8 +118,29 @@ class JumpToStageHandler(StabilizeHandler[JumpToStage]):
 
         def attempt() -> None:
             with self.repository.transaction(self.queue) as txn:
+                # The stale-jump guard was evaluated on an earlier read. The
+                # source may have been finished since (a CancelStage fanned out
+                # by a failing sibling, say): applying the jump to the fresh
+                # rows would turn the CANCELED source SUCCEEDED or re-arm it.
+                source = self.repository.retrieve_stage(message.stage_id)
+                if source is None or source.status != WorkflowStatus.RUNNING:
+                    logger.info(
+                        "Ignoring stale JumpToStage to %s - source stage is %s",
+                        message.target_stage_ref_id,
+                        source.status if source is not None else "gone",
+                    )
+                    if message.message_id:
+                        txn.mark_message_processed(
+                            message_id=message.message_id,
+                            handler_type="JumpToStage",
+                            execution_id=message.execution_id,
+                        )
+                    return
                 for stage_id, mutate in mutations:
-                    fresh = self.repository.retrieve_stage(stage_id)
+                    # The source is written with the version the guard saw, so a
+                    # finish that commits after the guard fails the jump's
+                    # optimistic lock and the retry meets the guard again.
+                    fresh = source if stage_id == source.id else self.repository.retrieve_stage(stage_id)
                     if fresh is None:
                         logger.warning("Stage %s not found during jump; skipping", stage_id)
                         continue
